@@ -90,6 +90,11 @@ CHECKS = {
     text='TLC checks Total, OneCriterion, Commute, Narrowing, Partition, TextVsNumber, Trichotomy, CaseInsensitive, StarLaw and AverageLaw over ranges x 1..3 criteria from the grammar; each state is executed through COUNTIF(S)/SUMIF(S)/AVERAGEIF(S)/MAXIFS/MINIFS formulas and the observed selection must be allowed; the relational laws are also checked between observed values.',
     note='logical cells vs numeric criteria, numeric-looking text vs numeric criteria, empty text vs ""/"="/"<>", error cells in criteria ranges are unconstrained (any answer, no exception)',
     ref='§3 C15'),
+ 'C16': dict(
+    technique='Lookup.tla: vectors/tables built by Append with incrementally maintained sorted flags, MATCH as a relation (set of allowed results), INDEX/VLOOKUP/HLOOKUP/LOOKUP definitions and an implementation-shaped binary search, model-checked by TLC; every state executed through formulas over real ranges',
+    text='TLC checks ExactIsFirstEqual, ApproxIsBest, ApproxFindsExact, BinarySearchOK (the bisect result is in the linear-scan allowed set), Sandwich, AppendLaw and the table laws (VLOOKUP = HLOOKUP of the transpose, LOOKUP array form, result = INDEX at an allowed MATCH position, out-of-range index errors) exhaustively over mixed-type pools (vectors to length 3-5 quick / 8 thorough, tables to 6x4); each vector x 25 lookup values x 3 match types is executed through MATCH/INDEX/VLOOKUP/HLOOKUP/LOOKUP formulas and library calls and must be in the allowed set.',
+    note='blank matched by the neutral values 0/""/FALSE, unsorted data with types +-1 and punctuation collation are unconstrained (totality still required); one-cell ranges other than in MATCH are collapsed to scalars by the compiler and skipped in the workbook path',
+    ref='§3 C16'),
  'C17': dict(
     technique='Calendar.tla: day-successor machine with Excel month lengths plus DATE/EOMONTH/EDATE/clock/YEARFRAC enumerators, model-checked by TLC against independent closed forms; exported month starts / argument vectors executed on the date_time functions',
     text='TLC walks the 1900 calendar (every serial day in the thorough tier, 2,958,466 states) checking SerialClosedForm, RoundTrip, Fictitious days, ProlepticAfter60, weekday period 7, LastDay, carrying laws of DATE, month-end laws of EOMONTH/EDATE, clock decomposition and YEARFRAC symmetry; the harness expands TLC\'s month starts to days and calls YEAR/MONTH/DAY/WEEKDAY/DATE/EOMONTH/EDATE/HOUR/MINUTE/SECOND/YEARFRAC through wrappers and formulas.',
